@@ -117,6 +117,10 @@ func checkFunc(P *Program, fn *ssa.Function, c *FuncContract, sweep bool) (rep *
 		v := ex.symbolicInput(st, "in:"+prm.Name(), prm.Type())
 		st.vals[prm] = v
 		vars[prm.Name()] = tv{v, prm.Type()}
+		// the contract's own (positional) name for this parameter, where the header gives one
+		if len(c.Params) == len(fn.Params) && c.Params[i] != "" && c.Params[i] != "_" {
+			vars[c.Params[i]] = tv{v, prm.Type()}
+		}
 		if i == 0 && fn.Signature.Recv() != nil {
 			vars["self"] = tv{v, prm.Type()}
 		}
